@@ -115,7 +115,7 @@ def coq_check_props(pid):
         # Print Assumptions output is stored by coqc in the log when the file is (re)compiled; keep a copy
         alog = os.path.join(WORK, 'assumptions_%s.txt' % pid)
         if ok:
-            if 'COQC Props/Properties_%s.v' % pid in log or not os.path.exists(alog):
+            if 'COQC Props/Properties_%s.v' % pid in log or not os.path.exists(alog) or os.path.getmtime(alog) < os.path.getmtime(os.path.join(COQ, target)):
                 # force a compile of the props file alone to capture its output
                 r2 = sh(['timeout', '900', 'coqc', '-Q', '.', 'BL', 'Props/Properties_%s.v' % pid], cwd=COQ)
                 open(alog, 'w').write(r2.stdout)
